@@ -6,9 +6,11 @@ import "verifharness/internal/core"
 var Registry = map[string]func(*core.Ctx){
 	"C11": RunC11,
 	"C12": RunC12,
+	"C20": RunC20,
 }
 
 // RegisterOnly registers every case kind (for replays).
 func RegisterOnly(c *core.Ctx) {
 	registerCborKinds(c)
+	registerRvKinds(c)
 }
